@@ -157,29 +157,62 @@ func nameRules(c *Ctx, want map[string]bool) {
 		// how scanDir uses the groups
 		if scan != nil {
 			uses := map[string]string{}
+			sinfo := scan.Pkg.TypesInfo
+			smObj := submatchVar(scan)
+			var hashObj, prefixObj types.Object
+			groupIdx := func(e ast.Expr) int64 {
+				if ix, ok := ast.Unparen(e).(*ast.IndexExpr); ok && smObj != nil && identObj(sinfo, ix.X) == smObj {
+					if k, ok := constInt(sinfo, ix.Index); ok {
+						return k
+					}
+				}
+				return -1
+			}
+			ast.Inspect(scan.Decl.Body, func(n ast.Node) bool {
+				if as, ok := n.(*ast.AssignStmt); ok && len(as.Rhs) == 1 && len(as.Lhs) >= 1 {
+					if groupIdx(as.Rhs[0]) == 1 {
+						hashObj = identObj(sinfo, as.Lhs[0])
+					}
+				}
+				return true
+			})
 			ast.Inspect(scan.Decl.Body, func(n ast.Node) bool {
 				if as, ok := n.(*ast.AssignStmt); ok && len(as.Rhs) == 1 {
-					r := strings.ReplaceAll(exprStr(as.Rhs[0]), " ", "")
+					rhs := ast.Unparen(as.Rhs[0])
 					for _, l := range as.Lhs {
 						ls := exprStr(l)
 						switch {
-						case ls == "hash" && r == "sm[1]":
-							uses["hash"] = r
-						case strings.HasSuffix(ls, ".size") && strings.Contains(r, "strconv.ParseInt(sm[2]"):
-							uses["size"] = r
-						case strings.HasSuffix(ls, ".random") && r == "sm[3]":
-							uses["random"] = r
-						case strings.HasSuffix(ls, ".legacy") && r == `sm[4]==".v1"`:
-							uses["legacy"] = r
-						case strings.HasSuffix(ls, ".sizeOnDisk") && r == "info.Size()":
-							uses["sizeOnDisk"] = r
-						case strings.HasSuffix(ls, ".lookupKey") && r == "lookupKeyPrefix+hash":
-							uses["key"] = r
+						case hashObj != nil && identObj(sinfo, l) == hashObj && groupIdx(rhs) == 1:
+							uses["hash"] = "group 1"
+						case strings.HasSuffix(ls, ".size"):
+							if call, ok := rhs.(*ast.CallExpr); ok && fullCalleeName(sinfo, call) == "strconv.ParseInt" && len(call.Args) == 3 && groupIdx(call.Args[0]) == 2 {
+								uses["size"] = "ParseInt(group 2)"
+							}
+						case strings.HasSuffix(ls, ".random") && groupIdx(rhs) == 3:
+							uses["random"] = "group 3"
+						case strings.HasSuffix(ls, ".legacy"):
+							if be, ok := rhs.(*ast.BinaryExpr); ok && be.Op == token.EQL && groupIdx(be.X) == 4 {
+								if cs, ok := constString(sinfo, be.Y); ok && cs == ".v1" {
+									uses["legacy"] = `group 4 == ".v1"`
+								}
+							}
+						case strings.HasSuffix(ls, ".sizeOnDisk"):
+							if call, ok := rhs.(*ast.CallExpr); ok && strings.HasSuffix(fullCalleeName(sinfo, call), "FileInfo).Size") {
+								uses["sizeOnDisk"] = "FileInfo.Size()"
+							}
+						case strings.HasSuffix(ls, ".lookupKey"):
+							if be, ok := rhs.(*ast.BinaryExpr); ok && be.Op == token.ADD && hashObj != nil && identObj(sinfo, be.Y) == hashObj {
+								if po := identObj(sinfo, be.X); po != nil {
+									prefixObj = po
+									uses["key"] = "prefix + hash"
+								}
+							}
 						}
 					}
 				}
 				return true
 			})
+			_ = prefixObj
 			R.Check(len(uses) == 6, "R04e", c.Cfg+"scanDir:group-use", c.P.Pos(scan.Decl.Pos()), "scanDir takes hash, logical size, random suffix and legacy flag from groups 1-4, the size on disk from the file and the key from prefix+hash", fmt.Sprintf("recognised only %v", uses))
 		}
 	}
@@ -259,7 +292,12 @@ func nameRules(c *Ctx, want map[string]bool) {
 			okLoc := false
 			for _, call := range callsIn(fi.Decl.Body, false) {
 				if calleeKey(info, call) == "disk.(*diskCache).FileLocation" && len(call.Args) == 5 {
-					okLoc = exprStr(call.Args[0]) == "kind" && exprStr(call.Args[1]) == "value.legacy" && exprStr(call.Args[2]) == "hash" && exprStr(call.Args[3]) == "value.size" && exprStr(call.Args[4]) == "value.random"
+					val := paramObj(fi, 1)
+					fieldOf := func(e ast.Expr, name string) bool {
+						sel, ok := ast.Unparen(e).(*ast.SelectorExpr)
+						return ok && sel.Sel.Name == name && val != nil && identObj(info, sel.X) == val
+					}
+					okLoc = len(call.Args) == 5 && fieldOf(call.Args[1], "legacy") && fieldOf(call.Args[3], "size") && fieldOf(call.Args[4], "random")
 				}
 			}
 			R.Check(okLoc, "R15a", c.Cfg+"getElementPath:location", c.P.Pos(fi.Decl.Pos()), "getElementPath is dir + FileLocation(kind, value.legacy, hash, value.size, value.random)", "getElementPath does not build the path from the entry's own fields")
@@ -271,12 +309,15 @@ func nameRules(c *Ctx, want map[string]bool) {
 				if !ok {
 					return true
 				}
-				if call, ok := is.Cond.(*ast.CallExpr); ok && fullCalleeName(info, call) == "strings.HasPrefix" && exprStr(call.Args[0]) == "d" {
-					p, _ := constString(info, call.Args[1])
-					for _, st := range is.Body.List {
-						if as, ok := st.(*ast.AssignStmt); ok && exprStr(as.Lhs[0]) == "lookupKeyPrefix" {
-							v, _ := constString(info, as.Rhs[0])
-							got[p] = v
+				if call, ok := is.Cond.(*ast.CallExpr); ok && fullCalleeName(info, call) == "strings.HasPrefix" && len(call.Args) == 2 {
+					p, isC := constString(info, call.Args[1])
+					if isC && strings.HasSuffix(p, ".v2/") {
+						for _, st := range is.Body.List {
+							if as, ok := st.(*ast.AssignStmt); ok && len(as.Lhs) == 1 && len(as.Rhs) == 1 {
+								if v, ok := constString(info, as.Rhs[0]); ok {
+									got[p] = v
+								}
+							}
 						}
 					}
 				}
@@ -324,6 +365,48 @@ func nameRules(c *Ctx, want map[string]bool) {
 				}
 			}
 		}
+		if fv := c.P.Func("disk.migrateV1Subdir"); fv != nil {
+			inCAS, outCAS := []string{}, []string{}
+			var casBlocks []*ast.BlockStmt
+			ast.Inspect(fv.Decl.Body, func(n ast.Node) bool {
+				if is, ok := n.(*ast.IfStmt); ok {
+					if be, ok := ast.Unparen(is.Cond).(*ast.BinaryExpr); ok && be.Op == token.EQL && (selName(be.Y) == "CAS" || selName(be.X) == "CAS") {
+						casBlocks = append(casBlocks, is.Body)
+					}
+				}
+				return true
+			})
+			ast.Inspect(fv.Decl.Body, func(n ast.Node) bool {
+				if bl, ok := n.(*ast.BasicLit); ok && bl.Kind == token.STRING {
+					if v, ok := constString(info, bl); ok && strings.HasPrefix(v, "-") && len(v) > 3 {
+						in := false
+						for _, b := range casBlocks {
+							if bl.Pos() >= b.Pos() && bl.End() <= b.End() {
+								in = true
+							}
+						}
+						if in {
+							inCAS = append(inCAS, v)
+						} else {
+							outCAS = append(outCAS, v)
+						}
+					}
+				}
+				return true
+			})
+			ok := len(inCAS) >= 1 && len(outCAS) >= 1
+			for _, v := range inCAS {
+				if !strings.HasSuffix(v, ".v1") {
+					ok = false
+				}
+			}
+			for _, v := range outCAS {
+				if strings.HasSuffix(v, ".v1") {
+					ok = false
+				}
+			}
+			R.Check(ok, "R09c", c.Cfg+"migrateV1Subdir:v1-exactly-for-cas", c.P.Pos(fv.Decl.Pos()), "in the v1 sub-directory migration the CAS branch gives names ending in .v1 and the other branch does not", fmt.Sprintf("CAS branch suffixes %v, other suffixes %v", inCAS, outCAS))
+		}
 		// ".v1" is appended exactly when kind == CAS, and targets are kind.DirName()/<hh>
 		if fi := c.P.Func("disk.migrateDirectory"); fi != nil {
 			v1OnlyCAS, target := false, false
@@ -340,6 +423,41 @@ func nameRules(c *Ctx, want map[string]bool) {
 				}
 				return true
 			})
+			// every destination lands in <target>/<first two characters of the name>/
+			shardOK, nJoin := true, 0
+			var targetObj types.Object
+			ast.Inspect(fi.Decl.Body, func(n ast.Node) bool {
+				if as, ok := n.(*ast.AssignStmt); ok && len(as.Lhs) == 1 && len(as.Rhs) == 1 {
+					if call, ok := ast.Unparen(as.Rhs[0]).(*ast.CallExpr); ok && strings.HasSuffix(fullCalleeName(info, call), "path.Join") || ok && strings.HasSuffix(fullCalleeName(info, call), "filepath.Join") {
+						for _, a := range call.Args {
+							if c2, ok := ast.Unparen(a).(*ast.CallExpr); ok && strings.HasSuffix(fullCalleeName(info, c2), "EntryKind).DirName") {
+								targetObj = identObj(info, as.Lhs[0])
+							}
+						}
+					}
+				}
+				return true
+			})
+			ast.Inspect(fi.Decl.Body, func(n ast.Node) bool {
+				call, ok := n.(*ast.CallExpr)
+				if !ok || !(strings.HasSuffix(fullCalleeName(info, call), "path.Join") || strings.HasSuffix(fullCalleeName(info, call), "filepath.Join")) || len(call.Args) < 2 {
+					return true
+				}
+				if targetObj == nil || identObj(info, call.Args[0]) != targetObj {
+					return true
+				}
+				nJoin++
+				se, ok := ast.Unparen(call.Args[1]).(*ast.SliceExpr)
+				if !ok || se.Low != nil || se.High == nil {
+					shardOK = false
+					return true
+				}
+				if k, isC := constInt(info, se.High); !isC || k != 2 {
+					shardOK = false
+				}
+				return true
+			})
+			R.Check(shardOK && nJoin >= 2, "R09c", c.Cfg+"migrateDirectory:shard-dir", c.P.Pos(fi.Decl.Pos()), "migrated files and sub-directories go to <kind>.v2/<first two hex characters>/", fmt.Sprintf("%d destination joins, two-character shard everywhere: %v", nJoin, shardOK))
 			R.Check(v1OnlyCAS && target, "R09c", c.Cfg+"migrateDirectory:v1-and-target", c.P.Pos(fi.Decl.Pos()), ".v1 is appended exactly for CAS and files move under kind.DirName()", fmt.Sprintf("v1-for-CAS=%v target-dir=%v", v1OnlyCAS, target))
 		}
 	}
@@ -422,9 +540,17 @@ func nameRules(c *Ctx, want map[string]bool) {
 			// unmatched file names are errors
 			errOnMismatch := false
 			ast.Inspect(scan.Decl.Body, func(n ast.Node) bool {
-				if is, ok := n.(*ast.IfStmt); ok && strings.ReplaceAll(exprStr(is.Cond), " ", "") == "len(sm)!=5" {
-					if _, isRet := is.Body.List[len(is.Body.List)-1].(*ast.ReturnStmt); isRet {
-						errOnMismatch = true
+				if is, ok := n.(*ast.IfStmt); ok {
+					if be, ok := ast.Unparen(is.Cond).(*ast.BinaryExpr); ok && be.Op == token.NEQ {
+						if k, isC := constInt(scan.Pkg.TypesInfo, be.Y); isC && k == 5 {
+							if call, ok := ast.Unparen(be.X).(*ast.CallExpr); ok && exprStr(call.Fun) == "len" && len(call.Args) == 1 {
+								if smo := submatchVar(scan); smo != nil && identObj(scan.Pkg.TypesInfo, call.Args[0]) == smo {
+									if ret, isRet := is.Body.List[len(is.Body.List)-1].(*ast.ReturnStmt); isRet && len(ret.Results) > 0 && !isNilIdent(scan.Pkg.TypesInfo, ret.Results[len(ret.Results)-1]) {
+										errOnMismatch = true
+									}
+								}
+							}
+						}
 					}
 				}
 				return true
@@ -828,4 +954,21 @@ func checkGrpcTemplates(c *Ctx, fi *FuncInfo, write bool) {
 		wantPos = "hash@rem[2] hash@rem[3] size@rem[3] sizeStr@rem[4]"
 	}
 	R.Check(got == wantPos, "R12g", c.Cfg+"grpcproxy:"+what+":server-positions", c.P.Pos(sf.Decl.Pos()), "the server reads hash and size from the positions where the client templates put them ("+wantPos+")", "server positions: "+got)
+}
+
+
+// submatchVar returns the variable that receives the result of
+// (*regexp.Regexp).FindStringSubmatch in fi.
+func submatchVar(fi *FuncInfo) types.Object {
+	info := fi.Pkg.TypesInfo
+	var out types.Object
+	ast.Inspect(fi.Decl.Body, func(n ast.Node) bool {
+		if as, ok := n.(*ast.AssignStmt); ok && len(as.Rhs) == 1 && len(as.Lhs) == 1 {
+			if call, ok := ast.Unparen(as.Rhs[0]).(*ast.CallExpr); ok && strings.HasSuffix(fullCalleeName(info, call), "Regexp).FindStringSubmatch") {
+				out = identObj(info, as.Lhs[0])
+			}
+		}
+		return true
+	})
+	return out
 }
